@@ -3,15 +3,17 @@ import json, os
 from fractions import Fraction
 import fw
 from fw import Corr, Failure, cz, cq
+from props import C15_lift
 
 TITLE = 'Operators lift uniformly; numeric kernels obey range and inverse laws'
 TRANSLATED = ['Gen_builtins', 'Gen_builtinsR']
-MODEL_TARGETS = ['gen/Gen_builtins.vo']
+MODEL_TARGETS = ['gen/Gen_builtins.vo'] + C15_lift.MODEL_TARGETS
 ALLOWED_AXIOMS = ['sig_forall_dec', 'sig_not_dec', 'functional_extensionality_dep', 'classic']
 TRUSTED = [
     'translator harness/translator (py2coq.py, targets.py): sc3/base/builtins.py -> gen/Gen_builtins.v, gen/Gen_builtinsR.v',
     'floats modelled as rationals (exact on the dyadic grid the correspondence uses); binary64 rounding off the grid not verified',
     'libm (log2, log10, pow) trusted to approximate the real functions; R theorems use the standard library real-number axioms',
+    'lifting half: model/Lift.v and model/ListAlg.v are hand-written (dispatch of scbuiltin and the dunder methods, _compose_* of Function/Stream/Pattern/sequence/Operand); tie = operand-tree correspondence only',
 ]
 ASSUMES = ['Python float arithmetic on dyadic rationals of small magnitude is exact',
            'decimal literals in transcendental kernels denote the decimal number written']
@@ -29,7 +31,7 @@ def gen_args(rng, n, name):
         j = rng.choice([0, 1, 2, 3, 4, 10])
         v = Fraction(rng.randint(-(1 << (6 + j)), 1 << (6 + j)), 1 << j)
         if rng.random() < 0.15:
-            v = Fraction(rng.randint(-(1 << 20), 1 << 20), 1 << rng.randint(0, 10))
+            v = Fraction(rng.randint(-(1 << 16), 1 << 16), 1 << rng.randint(0, 10))
         return ['F', str(v)]
     args = [one() for _ in range(n)]
     # bias towards boundary situations: equal arguments, zero, swapped bounds
@@ -66,13 +68,23 @@ def correspond(ctx):
             exp = '(%d, %s, %s)%%Z' % (tag, o[1] if int(o[1]) >= 0 else '(%s)' % o[1], o[2])
         else:
             exp = '(9, 0, 0)%Z'   # something the model never returns: reported as a mismatch
-        items.append('(canon (py_%s %s), %s)' % (k['f'], ' '.join(num_term(a) for a in k['args']), exp))
+        items.append('(%s, py_%s %s, %s)' % ('true' if k['f'] in INEXACT else 'false', k['f'],
+                                              ' '.join(num_term(a) for a in k['args']), exp))
         c.count('fn:' + k['f'])
         c.count('result:' + {0: 'int', 1: 'float', 2: 'ZeroDivisionError'}.get(tag, 'other:%s' % o[1]))
         if tag in (0, 1) and Fraction(int(o[1]), int(o[2])) != Fraction(k['args'][0][1]):
             c.nontriv((k['f'], k['args']))
-    header = 'From Coq Require Import ZArith QArith List. Import ListNotations.\nRequire Import SC3.lib.PyNum SC3.gen.Gen_builtins.\n'
-    body = 'Eval vm_compute in bad_idx (fun c => canon_eqb (fst c) (snd c)) cases.'
+    header = ('From Coq Require Import ZArith QArith Qabs List. Import ListNotations.\n'
+              'Require Import SC3.lib.PyNum SC3.gen.Gen_builtins.\n'
+              '(* kernels with one true division: the float result is the correctly rounded quotient,\n'
+              '   |impl - exact| * 2^53 <= |exact| *)\n'
+              'Definition close (m : num) (e : Z * Z * Z) : bool :=\n'
+              '  match m, e with\n'
+              '  | F r, (1, n, d)%Z => Qle_bool (Qabs (Qmake n (Z.to_pos d) - r) * (9007199254740992 # 1)) (Qabs r)\n'
+              '  | _, _ => canon_eqb (canon m) e end.\n'
+              'Definition okc (c : bool * num * (Z * Z * Z)) : bool :=\n'
+              '  let (p, e) := c in let (inexact, m) := p in if inexact then close m e else canon_eqb (canon m) e.\n')
+    body = 'Eval vm_compute in bad_idx okc cases.'
     bad, errs = fw.check_shards(ctx, 'kern', header, items, body, shard=400)
     c.evaluations = len(cases)
     c.rule = ('every translated kernel of sc3.base.builtins on generated int / dyadic-float arguments (all type mixes, '
@@ -86,10 +98,21 @@ def correspond(ctx):
         c.failures.append(Failure('correspondence',
                                   'regenerated model and implementation disagree on %s%s: impl=%s' % (k['f'], k['args'], out[i]),
                                   replay={'case': k, 'impl': out[i]}, signature=None))
+    # second half of the property: operator lifting (hand-written model, operand-tree correspondence)
+    l = C15_lift.correspond_lift(ctx)
+    c.evaluations += l.evaluations
+    c.nontrivial |= l.nontrivial
+    c.rule += ' || LIFTING: ' + l.rule
+    c.samples += l.samples[:4]
+    for k2, v2 in l.distribution.items():
+        c.distribution['lift:' + k2] = v2
+    c.failures += l.failures
+    c.notes += l.notes
     return c
 
 
 LAW_OF_THEOREM = {}
+INEXACT = {'distort', 'softclip'}   # one true division: compared up to correct rounding
 
 
 def search(ctx, failures):
@@ -100,4 +123,5 @@ def search(ctx, failures):
         found.append(Failure('search', 'law %s fails on the implementation: %s%s -> %s (%s)' % (
             b['law'], b['law'].split('_')[0], tuple(b['args']), b['got'], b['why']),
             signature='C15:%s' % b['law'], replay=b, found_input=True, theorem=b['law']))
+    found += C15_lift.search_lift(ctx, failures)
     return found
